@@ -74,8 +74,8 @@ theorem callProc_succ (f : Nat) (t : Tok) (name : Str) (args : List Expr) :
         else
           if (← get).depth + 1 > (← get).depthLimit then rtErr t .budget
           let caller ← curAct
-          modifyAct caller.id fun a => { a with switchTok := some (t.line, t.col) }
           let slots ← bindParams f t pd.params args vals []
+          modifyAct caller.id fun a => { a with switchTok := some (t.line, t.col) }
           modify fun s => { s with depth := s.depth + 1 }
           withAct (fun id => { id := id, name := pd.name, vars := slots }) (procBody f pd.body)
           modify fun s => { s with depth := s.depth - 1 }
@@ -124,8 +124,8 @@ theorem callFun_succ (f : Nat) (t : Tok) (args : List Expr) :
         else
           if (← get).depth + 1 > (← get).depthLimit then rtErr t .budget
           let caller ← curAct
-          modifyAct caller.id fun a => { a with switchTok := some (t.line, t.col) }
           let slots ← bindParams f t fd.params args vals []
+          modifyAct caller.id fun a => { a with switchTok := some (t.line, t.col) }
           modify fun s => { s with depth := s.depth + 1 }
           let r ← withAct (fun id => { id := id, name := fd.name, isFn := true, retTy := fd.ret, vars := slots }) (funBody f fd)
           modify fun s => { s with depth := s.depth - 1 }
@@ -501,7 +501,7 @@ def procResult (callerId : Nat) : Except Stop Unit × St → Except Stop Unit ×
   | (.error e, σ4) => (.error (sigToErr σ4 e), popSt σ4)
 
 /-- **decomposition of a procedure call**: arguments (in the caller), arity check, depth check, binding (in the
-    caller, after the caller has noted the call position), then the body in the new activation -/
+    caller), the caller notes the call position, then the body in the new activation -/
 theorem run_callProc (f : Nat) (t : Tok) (name : Str) (args : List Expr) (σ σ1 σ2 : St) (pd : ProcDef)
     (vals : List Val) (cur : Act) (rest : List Act) (slots : List Slot)
     (hpd : σ.procs.find? (·.name == name) = some pd)
@@ -509,9 +509,9 @@ theorem run_callProc (f : Nat) (t : Tok) (name : Str) (args : List Expr) (σ σ1
     (hlen : vals.length = pd.params.length)
     (hdepth : σ1.depth + 1 ≤ σ1.depthLimit)
     (hcur : σ1.acts = cur :: rest)
-    (hbind : (bindParams f t pd.params args vals []).run.run (setSwitch σ1 cur.id t) = (.ok slots, σ2)) :
+    (hbind : (bindParams f t pd.params args vals []).run.run σ1 = (.ok slots, σ2)) :
     (callProc (f+1) t name args).run.run σ =
-      procResult cur.id ((runBlock f pd.body).run.run (calleeSt (procAct pd slots) σ2)) := by
+      procResult cur.id ((runBlock f pd.body).run.run (calleeSt (procAct pd slots) (setSwitch σ2 cur.id t))) := by
   rw [callProc_succ, run_bind_ok _ _ _ _ _ (run_get σ), hpd]
   dsimp only
   rw [run_bind_ok _ _ _ _ _ hargs]
@@ -520,17 +520,16 @@ theorem run_callProc (f : Nat) (t : Tok) (name : Str) (args : List Expr) (σ σ1
   rw [run_bind_ok _ _ _ _ _ (run_get σ1), run_bind_ok _ _ _ _ _ (run_get σ1)]
   have hd : ¬ (σ1.depth + 1 > σ1.depthLimit) := by omega
   simp only [hd, if_false]
-  rw [run_bind_ok _ _ _ _ _ (run_curAct_cons σ1 cur rest hcur),
-    run_bind_ok _ _ _ _ _ (run_modifyAct _ _ σ1)]
-  have hb : (bindParams f t pd.params args vals []).run.run
-      (updSt σ1 cur.id fun a => { a with switchTok := some (t.line, t.col) }) = (.ok slots, σ2) := hbind
-  rw [run_bind_ok _ _ _ _ _ hb, run_bind_ok _ _ _ _ _ (run_modify _ σ2)]
+  rw [run_bind_ok _ _ _ _ _ (run_curAct_cons σ1 cur rest hcur), run_bind_ok _ _ _ _ _ hbind,
+    run_bind_ok _ _ _ _ _ (run_modifyAct _ _ σ2), run_bind_ok _ _ _ _ _ (run_modify _ _)]
   rw [run_bind, run_withAct, run_procBody]
-  show _ = procResult cur.id ((runBlock f pd.body).run.run (pushSt (procAct pd slots) (incDepth σ2)))
-  have hst : pushSt (fun id => ({ id := id, name := pd.name, vars := slots } : Act)) { σ2 with depth := σ2.depth + 1 } =
-      pushSt (procAct pd slots) (incDepth σ2) := rfl
+  show _ = procResult cur.id ((runBlock f pd.body).run.run (pushSt (procAct pd slots) (incDepth (setSwitch σ2 cur.id t))))
+  have hst : pushSt (fun id => ({ id := id, name := pd.name, vars := slots } : Act))
+      { (updSt σ2 cur.id fun a => { a with switchTok := some (t.line, t.col) }) with
+        depth := (updSt σ2 cur.id fun a => { a with switchTok := some (t.line, t.col) }).depth + 1 } =
+      pushSt (procAct pd slots) (incDepth (setSwitch σ2 cur.id t)) := rfl
   rw [hst]
-  rcases (runBlock f pd.body).run.run (pushSt (procAct pd slots) (incDepth σ2)) with ⟨e | u, σ4⟩
+  rcases (runBlock f pd.body).run.run (pushSt (procAct pd slots) (incDepth (setSwitch σ2 cur.id t))) with ⟨e | u, σ4⟩
   · rfl
   · simp only [procResult]
     rw [run_bind_ok _ _ _ _ _ (run_modify _ _)]
@@ -607,9 +606,9 @@ theorem run_callFun_user (f : Nat) (t : Tok) (args : List Expr) (σ σ1 σ2 : St
     (hlen : vals.length = fd.params.length)
     (hdepth : σ1.depth + 1 ≤ σ1.depthLimit)
     (hcur : σ1.acts = cur :: rest)
-    (hbind : (bindParams f t fd.params args vals []).run.run (setSwitch σ1 cur.id t) = (.ok slots, σ2)) :
+    (hbind : (bindParams f t fd.params args vals []).run.run σ1 = (.ok slots, σ2)) :
     (callFun (f+1) t args).run.run σ =
-      funResult cur.id defTok ((runBlock f body).run.run (calleeSt (funAct fd slots) σ2)) := by
+      funResult cur.id defTok ((runBlock f body).run.run (calleeSt (funAct fd slots) (setSwitch σ2 cur.id t))) := by
   rw [callFun_succ, run_bind_ok _ _ _ _ _ (run_get σ), hfd]
   dsimp only
   rw [run_bind_ok _ _ _ _ _ hargs]
@@ -618,16 +617,15 @@ theorem run_callFun_user (f : Nat) (t : Tok) (args : List Expr) (σ σ1 σ2 : St
   rw [run_bind_ok _ _ _ _ _ (run_get σ1), run_bind_ok _ _ _ _ _ (run_get σ1)]
   have hd : ¬ (σ1.depth + 1 > σ1.depthLimit) := by omega
   simp only [hd, if_false]
-  rw [run_bind_ok _ _ _ _ _ (run_curAct_cons σ1 cur rest hcur),
-    run_bind_ok _ _ _ _ _ (run_modifyAct _ _ σ1)]
-  have hb : (bindParams f t fd.params args vals []).run.run
-      (updSt σ1 cur.id fun a => { a with switchTok := some (t.line, t.col) }) = (.ok slots, σ2) := hbind
-  rw [run_bind_ok _ _ _ _ _ hb, run_bind_ok _ _ _ _ _ (run_modify _ σ2)]
+  rw [run_bind_ok _ _ _ _ _ (run_curAct_cons σ1 cur rest hcur), run_bind_ok _ _ _ _ _ hbind,
+    run_bind_ok _ _ _ _ _ (run_modifyAct _ _ σ2), run_bind_ok _ _ _ _ _ (run_modify _ _)]
   rw [run_bind, run_withAct]
   have hst : pushSt (fun id => ({ id := id, name := fd.name, isFn := true, retTy := fd.ret, vars := slots } : Act))
-      { σ2 with depth := σ2.depth + 1 } = calleeSt (funAct fd slots) σ2 := rfl
+      { (updSt σ2 cur.id fun a => { a with switchTok := some (t.line, t.col) }) with
+        depth := (updSt σ2 cur.id fun a => { a with switchTok := some (t.line, t.col) }).depth + 1 } =
+      calleeSt (funAct fd slots) (setSwitch σ2 cur.id t) := rfl
   rw [hst, run_funBody_user f fd body defTok _ hbody]
-  rcases (runBlock f body).run.run (calleeSt (funAct fd slots) σ2) with ⟨e | u, σ4⟩
+  rcases (runBlock f body).run.run (calleeSt (funAct fd slots) (setSwitch σ2 cur.id t)) with ⟨e | u, σ4⟩
   · cases e with
     | ret =>
       simp only [funResult, funBodyOut]
